@@ -722,4 +722,28 @@ theorem list_span (ctx : Ctx) (σ : Assign) :
     exact ⟨⟨(forallNodes_here (spanClause ctx σ) (i :: path) e h1).1, h2.1⟩, h1, h2.2⟩
 end
 
+/-- A Choose whose indicator is 1 and whose utility is not 0 reports its placement. -/
+theorem choose_placed (ctx : Ctx) (σ : Assign) (path : Path) (name strategy : String)
+    (parts : List Nat) (n start dur : Nat) (u : Int) (hu : u ≠ 0)
+    (hutil : (compileNode ctx path (.choose name strategy parts n start dur u)).pr.util = true)
+    (h1 : indVal σ (compileNode ctx path (.choose name strategy parts n start dur u)).pr = 1) :
+    ∃ allocs, (populateNode ctx σ path (.choose name strategy parts n start dur u)).placements
+      = [⟨name, start, (start : Int) + dur, allocs⟩] := by
+  simp only [populateNode, compileNode] at hutil h1 ⊢
+  unfold compileChoose at hutil h1 ⊢
+  by_cases h1' : ctx.now > start
+  · simp [h1', PR.none] at hutil
+  · simp only [h1', if_false] at hutil h1 ⊢
+    by_cases h2 : (schedulable ctx parts).isEmpty = true
+    · simp [h2, PR.none] at hutil
+    · simp only [h2] at hutil h1 ⊢
+      simp only [Bool.false_eq_true, if_false] at hutil h1 ⊢
+      simp only [indVal, resolveTV] at h1
+      simp only [baseSol, Bool.not_true, Bool.false_eq_true, if_false, mergeChildren, List.foldl_nil]
+      have : ¬ ((some (evalU σ [(u, some (⟨path, .placed⟩ : VarId))]) == some 0) = true) := by
+        simp [evalU, h1, hu]
+      simp only [Bool.false_or, this]
+      exact ⟨_, rfl⟩
+
+
 end ErdosVerif.Strl
